@@ -87,6 +87,9 @@ class ManifestLoader:
         except (EOFError,) + InvalidCompressedFileExceptions as e:
             raise ManifestSyntaxError(
                 f'Invalid compressed data in Manifest {relpath}: {e}')
+        except UnicodeDecodeError as e:
+            raise ManifestSyntaxError(
+                f'Manifest {relpath} is not valid UTF-8: {e}')
         except OSError as e:
             # bz2 returns generic OSError without errno
             if e.errno is not None:
